@@ -523,6 +523,31 @@ def branches():
         return (np.asarray(r.x), float(r.fun))
     add('optimize.minimize', 'num_repeat=2,maxiter=4', mini, lambda x: [] if np.isfinite(x[1]) else ['non-finite optimum'], heavy=True)
 
+    # every documented form of the initial-point option of the two minimisers
+    def _model(nq):
+        import torch
+
+        class M(torch.nn.Module):
+            def __init__(self):
+                super().__init__()
+                self.theta = torch.nn.Parameter(torch.zeros(3, dtype=torch.float64))
+
+            def forward(self):
+                return torch.sum((self.theta - 0.3)**4) + torch.sin(self.theta[0] * 3)
+        return M()
+    for t0name, t0 in (('None', None), ('uniform', 'uniform'), ('normal', 'normal'), ('(uniform,-2,2)', ('uniform', -2, 2)), ('(normal,1,0.5)', ('normal', 1, 0.5)),
+                       ('callable', lambda size, rng: rng.uniform(0, 1, size=size))):
+        def mini2(nq, s, t0=t0):
+            r = nq.optimize.minimize(_model(nq), theta0=t0, num_repeat=2, tol=1e-10, print_every_round=0, maxiter=3, seed=s)
+            return (np.asarray(r.x), float(r.fun))
+        add('optimize.minimize', 'theta0=%s' % t0name, mini2, lambda x: [] if np.isfinite(x[1]) else ['non-finite optimum'], heavy=True)
+        if t0name != 'None':
+            def adam(nq, s, t0=t0):
+                m = _model(nq)
+                r = nq.optimize.minimize_adam(m, num_step=3, theta0=t0, seed=s, tqdm_update_freq=0)
+                return (nq.optimize.get_model_flat_parameter(m), repr(r)[:60] if not isinstance(r, (float, np.ndarray, tuple)) else r)
+            add('optimize.minimize_adam', 'theta0=%s' % t0name, adam, lambda x: [] if np.all(np.isfinite(x[0])) else ['non-finite parameters'], heavy=True)
+
     def ces(nq, s):
         r = nq.matrix_space.get_completed_entangled_subspace((2, 3), 'quant-ph/0405077', seed=s)
         return (r[0], r[1])
@@ -649,10 +674,19 @@ def run_case(case, out, env):
     key_b = '%s[%s]' % (name, label)
 
     def call(seed, stream):
+        st_np = np.random.get_state()
+        st_py = random.getstate()
         with seams.EntropySeam(stream) as es:
             with np.errstate(all='ignore'):
                 r = fn(numqi, seed)
-        return r, es.hits
+        hits = list(es.hits)
+        # the legacy global generators are part of 'what other random calls happened in between': a seeded call must not read them
+        st_np2 = np.random.get_state()
+        if st_np[0] != st_np2[0] or not np.array_equal(st_np[1], st_np2[1]) or st_np[2:] != st_np2[2:]:
+            hits.append(('global numpy.random state consumed', name))
+        if random.getstate() != st_py:
+            hits.append(('global python random state consumed', name))
+        return r, hits
 
     per_seed = {}
     for seed in seeds:
@@ -671,7 +705,7 @@ def run_case(case, out, env):
         # (2) no fresh entropy inside a seeded call
         if hits0:
             out.violation('%s/unseeded_generator_in_seeded_call' % site,
-                          '%s(seed=%d) constructed an unseeded generator at %s' % (key_b, seed, sorted({h[1] for h in hits0})), branch=label, seed=seed, hits=hits0)
+                          '%s(seed=%d) drew from a source that is not derived from the seed: %s' % (key_b, seed, sorted({'%s @ %s' % (h[0], h[1]) for h in hits0})), branch=label, seed=seed, hits=hits0)
         # (4) validity
         try:
             fails = valid(r0)
